@@ -587,9 +587,10 @@ def check_ephemeral(scn, res):
 
     # (2) a '??' listener sends no flow-control traffic at all
     for f in scn['filters']:
-        for up, eph, _, _ in sources_of(f):
+        for up, eph, _, full in sources_of(f):
             if eph == 2:
-                sent = [w for w in res.wire if w[1] == 'snd' and w[2].startswith(f['name'] + '>>') and w[3][0] == 'req' and (w[3][2] is None or w[3][2] > -2)]
+                sent = [w for w in res.wire if w[1] == 'snd' and w[2].split('#')[0] == f'{f["name"]}>>ipc://{full}.req' and w[3][0] == 'req'
+                        and (w[3][2] is None or w[3][2] > -2)]
 
                 if sent:
                     bad('doubly-ephemeral-requests', f'{f["name"]} (a ?? listener of {up}) sent {len(sent)} request messages: {sent[:3]}')
